@@ -140,6 +140,62 @@ theorem decToPy_reject (s : Str) (h : ¬ DecimalLex (xmlStrip s)) : decToPy s = 
   | none => rfl
   | some r => obtain ⟨neg, ip, fr⟩ := r; exact absurd (decLex_sound _ _ _ _ hl) h
 
+/-! ### decimal lists -/
+
+theorem decToPy_err (t : Str) (e : Err) (h : decToPy t = .error e) : e = .value := by
+  unfold decToPy at h
+  cases hl : decLex (xmlStrip t) with
+  | none => rw [hl] at h; injection h with h; exact h.symm
+  | some r => obtain ⟨a, b, c⟩ := r; rw [hl] at h; cases h
+
+/-- a list with an item outside the lexical space of xsd:decimal is rejected as a whole -/
+theorem decItems_reject (ts : List Str) (t : Str) (ht : t ∈ ts) (h : ¬ DecimalLex (xmlStrip t)) :
+    decItems ts = .error .value := by
+  induction ts with
+  | nil => cases ht
+  | cons a ts ih =>
+    unfold decItems
+    cases ha : decToPy a with
+    | error e => rw [decToPy_err a e ha]
+    | ok d =>
+      simp only
+      have hne : t ≠ a := by
+        intro heq; subst heq
+        exact h ((decToPy_ok_iff t).mp ⟨d, ha⟩)
+      have ht' : t ∈ ts := by
+        rcases List.mem_cons.mp ht with h1 | h1
+        · exact absurd h1 hne
+        · exact h1
+      rw [ih ht']
+
+/-- every item of an accepted list is the conversion of its token, in order -/
+theorem decItems_ok (ts : List Str) (ds : List Dec) (h : decItems ts = .ok ds) :
+    ds.length = ts.length ∧ ∀ i (hi : i < ts.length) (hj : i < ds.length), decToPy ts[i] = .ok ds[i] := by
+  induction ts generalizing ds with
+  | nil =>
+    simp only [decItems, Except.ok.injEq] at h
+    subst h
+    exact ⟨rfl, fun i hi => absurd hi (Nat.not_lt_zero i)⟩
+  | cons a ts ih =>
+    unfold decItems at h
+    cases ha : decToPy a with
+    | error e => rw [ha] at h; cases h
+    | ok d =>
+      rw [ha] at h
+      simp only at h
+      cases hr : decItems ts with
+      | error e => rw [hr] at h; cases h
+      | ok ds' =>
+        rw [hr] at h
+        simp only [Except.ok.injEq] at h
+        subst h
+        obtain ⟨hl, hi⟩ := ih ds' hr
+        refine ⟨by simp [hl], ?_⟩
+        intro i h1 h2
+        cases i with
+        | zero => simpa using ha
+        | succ j => simpa using hi j (by simpa using h1) (by simpa using h2)
+
 /-! ### digit count of an accepted string -/
 
 theorem xmlStrip_sublist (s : Str) : (xmlStrip s).Sublist s := by
